@@ -665,6 +665,17 @@ let handle (fields : string list) : string * string =
         | [GRefused; GAccepted; GAccepted] -> "b-refused a-answered"
         | _ -> "other") in
     (m, if m = impl then "ok" else "fail:inbound-request-attached-to-another-connection-or-delayed")
+  | "pathprobe" :: bits :: _meth :: path :: impl :: [] ->
+    (* C05: without credentials confirmed for THIS request the tunnel handler is not reached (the handler answers
+       101 to an upgrade and 200 otherwise); OpenID alone leaves the documented prefix open by design *)
+    let m = { m_openid = bits.[0] = '1'; m_kerberos = bits.[1] = '1'; m_local = bits.[2] = '1'; m_ntlm = bits.[3] = '1' } in
+    let openid_only = m.m_openid && not m.m_kerberos && not m.m_local && not m.m_ntlm in
+    let p = bytes_of_hex path in
+    let to_b str = List.map (fun c -> byte_of_int (Char.code c)) (List.of_seq (String.to_seq str)) in
+    let under_prefix = Model.is_prefix (to_b "/remoteDesktopGateway/") p in
+    let reached = List.exists (fun pre -> String.length impl >= String.length pre && String.sub impl 0 (String.length pre) = pre) ["st=101"; "st=200"] in
+    let ok = (not reached) || (openid_only && under_prefix) in
+    ((if ok then impl else "not-reached"), if ok then "ok" else "fail:handler-reached-without-confirmed-credentials")
   | "pairing" :: same :: impl :: [] ->
     let c = parse_cfg "10101" "0000000" "0" in
     let one = n_of_int 1 and two = n_of_int 2 in
